@@ -14,7 +14,7 @@ for n in $names; do
       alarms="$alarms C$i[$v: $b]"
     fi
   done
-  git -C /repo checkout -- .
+  git -C /repo checkout -- . && git -C /repo clean -fdq
   [ -z "$alarms" ] && alarms="quiet on all 20"
   echo -e "$n\t$alarms"
 done
